@@ -2,6 +2,7 @@
 """Writes seeded/MATRIX.md from the output of `tools/fastsweep.sh seeded` (stdin)."""
 import re, sys
 rows = []
+sys.stdin.reconfigure(errors='replace')
 for line in sys.stdin:
     m = re.match(r'^(\S+): (CAUGHT|MISSED|PATCH DOES NOT APPLY)(?: \(([^)]*)\))?(?: :: (.*))?$', line.rstrip('\n'))
     if not m:
@@ -11,7 +12,7 @@ for line in sys.stdin:
     others = ' '.join(h.split(':')[0] for h in hits.split() if not h.startswith(own))
     rows.append((n, own, v, others, first))
 rows.sort()
-with open('/verif/seeded/MATRIX.md', 'w') as f:
+with open('/verif/seeded/MATRIX.md', 'w', errors='replace') as f:
     f.write('| seed | property | verdict | also reported by | first report of the own property |\n|---|---|---|---|---|\n')
     for r in rows:
         f.write('| %s | %s | %s | %s | %s |\n' % r)
